@@ -720,13 +720,16 @@ def run(ctx):
     ctx.rule = ("meshes: lattice polylines (2-20 vertices, possibly disconnected), 3-4-5 grid surfaces (tri/quad/mixed, "
                 "optional hole), closed Euler-brick tetrahedron / box surface, 5-tet Euler-brick volume rows, mouette.procedural "
                 "surfaces; random vertex renumbering; modes one / length (exact integer lengths) / dict / Attribute (with unset "
-                "entries) with small, tied, zero, dyadic and spread weights; queries: single int, list/set/tuple/np.int64 list, "
+                "entries) with small, tied, zero, dyadic and spread weights; dict weights given as python int/float/bool, np.float32/64, "
+                "np.int8..64, np.uint8..64 with magnitudes whose route sums leave the small types' ranges; queries: single int, list/set/tuple/np.int64 list, "
                 "one-element collections, all reachable vertices, vertex sets (also containing the start, one-element, "
                 "duplicates), border, a few malformed (empty set, other component); 15% with export_path_mesh; session scenarios: "
                 "other PriorityQueue objects alive with pending items (their content must be unchanged afterwards), stored "
                 "edge-length attributes made stale by moving the vertices, earlier queries, attributes with colliding names. "
                 "Non-trivial = some returned path has >= 3 vertices; distinct = by canonical JSON of mesh+weights+queries")
-    ctx.assumptions += ["weights are non-negative and dyadic: mapped to integers by a common scale (the theorems are over Z)",
+    ctx.assumptions += ["path sums stay exactly representable in the float accumulator (below 2^53; below 2^24 when the weights "
+                        "are np.float32): the model adds the VALUES of the weights exactly",
+                        "weights are non-negative and dyadic: mapped to integers by a common scale (the theorems are over Z)",
                         "vertex_to_vertices(v) lists exactly the other ends of the mesh edges at v (checked per case: adj_ok)",
                         "'length' mode: lattice meshes whose edge lengths are exact integers (checked per case: weights_ok)"]
     ctx.regen(sys.modules[__name__])
